@@ -98,7 +98,8 @@ def md5_to_cid():
     if _MD5 is None:
         _MD5 = {}
         for cid in IDS:
-            _MD5.setdefault(hashlib.md5(CONTENTS[cid]["bytes"]).hexdigest(), []).append(cid)
+            for h in O.checksums_of(CONTENTS[cid]["bytes"]):
+                _MD5.setdefault(h, []).append(cid)
     return _MD5
 
 
